@@ -13,6 +13,7 @@ usage: py2v.py <repo> <outdir>
 """
 import ast
 import os
+import re
 import sys
 import textwrap
 
@@ -405,7 +406,7 @@ def int_consts(scope):
 
 
 HEADER = """(* GENERATED by tools/py2v.py from {src} — do not edit, never committed. *)
-From Coq Require Import ZArith List Bool String.
+From Coq Require Import String.\nFrom Coq Require Import ZArith List Bool.
 From LasV Require Import Lib.Base.
 Import ListNotations.
 Open Scope Z_scope.
@@ -518,9 +519,480 @@ def gen_format_bits(repo):
     return o
 
 
+
+# ----------------------------------------------------------------------------------
+# target: header.py write_to / read_from field sequences -> GenHeaderLayout.v
+# ----------------------------------------------------------------------------------
+ALIASES = {
+    "creation_date.timetuple().tm_yday": "creation_yday", "creation_date.year": "creation_year",
+    "creation_day_of_year": "creation_yday", "len(_vlrs)": "number_of_vlrs", "point_format.size": "point_size",
+    "int(0)": "zero", "LAS_FILE_SIGNATURE": "signature", "file_sig": "signature", "uuid.bytes_le": "uuid",
+    "vlr_bytes": "vlrs", "_vlrs": "vlrs", "start_of_waveform_data_packet_record": "start_of_waveform",
+}
+
+
+def canon(node, subst):
+    t = ast.unparse(node)
+    for k, v in subst.items():
+        t = re.sub(rf"\[{k}\]", f"[{v}]", t)
+    t = re.sub(r"\b(self|header)\.", "", t)
+    m = re.fullmatch(r"int\((.*\[\d+\])\)", t)
+    if m:
+        t = m.group(1)
+    return ALIASES.get(t, t)
+
+
+def const_int(node, consts):
+    if isinstance(node, ast.Constant) and isinstance(node.value, int):
+        return node.value
+    if isinstance(node, ast.Name) and node.id in consts:
+        return consts[node.id]
+    raise Untranslatable(f"width {ast.unparse(node)}")
+
+
+def is_little(node, locals_):
+    if isinstance(node, ast.Constant):
+        return node.value == "little"
+    if isinstance(node, ast.Name):
+        return locals_.get(node.id) == "little"
+    return False
+
+
+def unsigned_kw(call):
+    for k in call.keywords:
+        if k.arg == "signed":
+            return isinstance(k.value, ast.Constant) and k.value.value is False
+        if k.arg == "byteorder":
+            continue
+    return True
+
+
+def byteorder_ok(call, pos, locals_):
+    for k in call.keywords:
+        if k.arg == "byteorder":
+            return is_little(k.value, locals_)
+    return len(call.args) > pos and is_little(call.args[pos], locals_)
+
+
+def version_test(test, minor):
+    """evaluate `self.version.minor >= k` / `header.version.minor >= k`; None if not such a test"""
+    if isinstance(test, ast.Compare) and len(test.ops) == 1 and re.fullmatch(r"(self|header)\.version\.minor", ast.unparse(test.left)):
+        k = test.comparators[0]
+        if isinstance(k, ast.Constant) and isinstance(k.value, int):
+            op = test.ops[0]
+            return {ast.GtE: minor >= k.value, ast.Gt: minor > k.value, ast.Lt: minor < k.value,
+                    ast.LtE: minor <= k.value, ast.Eq: minor == k.value}.get(type(op))
+    return None
+
+
+def has_stream_io(node, meth):
+    for n in ast.walk(node):
+        if isinstance(n, ast.Call) and isinstance(n.func, ast.Attribute) and n.func.attr == meth \
+                and isinstance(n.func.value, ast.Name) and n.func.value.id == "stream":
+            return True
+        if isinstance(n, ast.Call) and any(isinstance(a, ast.Name) and a.id == "stream" for a in n.args):
+            return True
+    return False
+
+
+def header_write_layout(fn, consts, minor, ge_width):
+    fields = []
+    locals_ = {}
+
+    def classify(arg, subst):
+        if isinstance(arg, ast.Call) and isinstance(arg.func, ast.Attribute) and arg.func.attr == "to_bytes":
+            if not byteorder_ok(arg, 1, locals_) or not unsigned_kw(arg):
+                raise Untranslatable(f"to_bytes not little/unsigned: {ast.unparse(arg)}")
+            return ("KUInt", const_int(arg.args[0], consts), canon(arg.func.value, subst))
+        if isinstance(arg, ast.Call) and ast.unparse(arg.func) == "struct.pack":
+            if not (isinstance(arg.args[0], ast.Constant) and arg.args[0].value == "<d"):
+                raise Untranslatable("struct.pack format")
+            return ("KF64", 8, canon(arg.args[1], subst))
+        name = canon(arg, subst)
+        if name == "signature":
+            return ("KConst", 4, name)
+        if name == "uuid":
+            return ("KBytes", 16, name)
+        if name in ("extra_header_bytes", "vlrs", "extra_vlr_bytes"):
+            return ("KVar", 0, name)
+        raise Untranslatable(f"stream.write({ast.unparse(arg)})")
+
+    def walk(stmts, subst):
+        for s in stmts:
+            if isinstance(s, ast.Assign) and isinstance(s.value, ast.Constant) and isinstance(s.value.value, str) and isinstance(s.targets[0], ast.Name):
+                locals_[s.targets[0].id] = s.value.value
+                continue
+            call = None
+            if isinstance(s, ast.Expr) and isinstance(s.value, ast.Call):
+                call = s.value
+            elif isinstance(s, ast.Assign) and isinstance(s.value, ast.Call):
+                call = s.value
+            if call is not None:
+                f = ast.unparse(call.func)
+                if f == "stream.write":
+                    fields.append(classify(call.args[0], subst))
+                    continue
+                if f == "write_string" and ast.unparse(call.args[0]) == "stream":
+                    fields.append(("KStr", const_int(call.args[2], consts), canon(call.args[1], subst)))
+                    continue
+                if f == "write_as_c_string" and ast.unparse(call.args[0]) == "stream":
+                    fields.append(("KCStr", const_int(call.args[2], consts), canon(call.args[1], subst)))
+                    continue
+                if f == "self.global_encoding.write_to":
+                    fields.append(("KUInt", ge_width, "global_encoding"))
+                    continue
+            if isinstance(s, ast.If):
+                v = version_test(s.test, minor)
+                if v is None:
+                    if has_stream_io(s, "write"):
+                        raise Untranslatable(f"stream write under condition {ast.unparse(s.test)}")
+                    continue
+                walk(s.body if v else s.orelse, subst)
+                continue
+            if isinstance(s, ast.For):
+                it = s.iter
+                if isinstance(it, ast.Call) and ast.unparse(it.func) == "range" and len(it.args) == 1 and isinstance(s.target, ast.Name):
+                    for i in range(const_int(it.args[0], consts)):
+                        walk(s.body, dict(subst, **{s.target.id: i}))
+                    continue
+                raise Untranslatable("for loop shape")
+            if has_stream_io(s, "write"):
+                raise Untranslatable(f"unrecognised stream write in: {ast.unparse(s)[:80]}")
+    walk(fn.body, {})
+    return fields
+
+
+def header_read_layout(fn, consts, minor, ge_width):
+    fields = []
+    locals_ = {}
+
+    def reads_in(node):
+        """stream.read(...) calls and helper calls on `stream`, in source order"""
+        out = []
+
+        def dfs(n):
+            if isinstance(n, ast.Call):
+                f = ast.unparse(n.func)
+                if f == "stream.read":
+                    out.append(("read", n))
+                    return
+                if f == "read_string" and n.args and ast.unparse(n.args[0]) == "stream":
+                    out.append(("read_string", n))
+                    return
+                if f == "GlobalEncoding.read_from":
+                    out.append(("ge", n))
+                    return
+                if f == "VLRList.read_from":
+                    out.append(("vlrs", n))
+                    return
+            for c in ast.iter_child_nodes(n):
+                dfs(c)
+        dfs(node)
+        return out
+
+    def kind_of_context(stmt_value, readcall):
+        """what wraps the stream.read: int.from_bytes / struct.unpack / UUID / raw"""
+        for n in ast.walk(stmt_value):
+            if isinstance(n, ast.Call) and readcall in n.args + [k.value for k in n.keywords]:
+                f = ast.unparse(n.func)
+                if f == "int.from_bytes":
+                    if not byteorder_ok(n, 1, locals_) or not unsigned_kw(n):
+                        raise Untranslatable("from_bytes not little/unsigned")
+                    return "KUInt"
+                if f == "struct.unpack":
+                    if not (isinstance(n.args[0], ast.Constant) and n.args[0].value == "<d"):
+                        raise Untranslatable("struct.unpack format")
+                    return "KF64"
+                if f == "UUID":
+                    return "KBytes"
+                raise Untranslatable(f"stream.read wrapped in {f}")
+        return "raw"
+
+    def walk(stmts, subst):
+        for s in stmts:
+            if isinstance(s, ast.Assign) and isinstance(s.value, ast.Constant) and isinstance(s.value.value, str) and isinstance(s.targets[0], ast.Name):
+                locals_[s.targets[0].id] = s.value.value
+                continue
+            if isinstance(s, ast.Assign) and ast.unparse(s.targets[0]) == "stream":
+                continue  # stream = io.BytesIO(prefetch)
+            if isinstance(s, ast.If):
+                v = version_test(s.test, minor)
+                if v is None:
+                    rs = [r for b in (s.body, s.orelse) for st in b for r in reads_in(st)]
+                    if not rs:
+                        continue
+                    # `if current_pos < header_size: header.extra_header_bytes = stream.read(...)`: variable part
+                    if len(rs) == 1 and rs[0][0] == "read" and isinstance(s.body[0], ast.Assign):
+                        fields.append(("KVar", 0, canon(s.body[0].targets[0], subst)))
+                        continue
+                    raise Untranslatable(f"stream read under condition {ast.unparse(s.test)}")
+                walk(s.body if v else s.orelse, subst)
+                continue
+            if isinstance(s, ast.For):
+                it = s.iter
+                if isinstance(it, ast.Call) and ast.unparse(it.func) == "range" and len(it.args) == 1 and isinstance(s.target, ast.Name):
+                    for i in range(const_int(it.args[0], consts)):
+                        walk(s.body, dict(subst, **{s.target.id: i}))
+                    continue
+                raise Untranslatable("for loop shape")
+            if isinstance(s, ast.Try):
+                if any(reads_in(x) for x in ast.walk(s) if isinstance(x, ast.stmt) and x is not s):
+                    raise Untranslatable("stream read inside try")
+                continue
+            rs = reads_in(s)
+            if not rs:
+                continue
+            if not isinstance(s, ast.Assign) or len(s.targets) != 1:
+                raise Untranslatable(f"read outside assignment: {ast.unparse(s)[:80]}")
+            tgt = canon(s.targets[0], subst)
+            if tgt == "_version" and len(rs) == 2:
+                for nm, (k, c) in zip(("version.major", "version.minor"), rs):
+                    fields.append((kind_of_context(s.value, c), const_int(c.args[0], consts), nm))
+                continue
+            if len(rs) != 1:
+                raise Untranslatable(f"several reads in {ast.unparse(s)[:80]}")
+            k, c = rs[0]
+            if k == "read":
+                kind = kind_of_context(s.value, c)
+                if kind == "raw":
+                    kind = "KConst" if tgt == "signature" else "KBytes"
+                fields.append((kind, const_int(c.args[0], consts), tgt))
+            elif k == "read_string":
+                fields.append(("KStr", const_int(c.args[1], consts), tgt))
+            elif k == "ge":
+                fields.append(("KUInt", ge_width, tgt))
+            elif k == "vlrs":
+                fields.append(("KVar", 0, tgt))
+    walk(fn.body, {})
+    return fields
+
+
+def ge_io_width(cls, consts):
+    w = find_func(cls, "write_to")
+    r = find_func(cls, "read_from")
+    ws = [n for n in ast.walk(w) if isinstance(n, ast.Call) and isinstance(n.func, ast.Attribute) and n.func.attr == "to_bytes"]
+    rs = [n for n in ast.walk(r) if isinstance(n, ast.Call) and ast.unparse(n.func) == "stream.read"]
+    if len(ws) != 1 or len(rs) != 1:
+        raise Untranslatable("GlobalEncoding io shape")
+    for n in ws:
+        if not byteorder_ok(n, 1, {}) or not unsigned_kw(n):
+            raise Untranslatable("GlobalEncoding.write_to byte order")
+    a, b = const_int(ws[0].args[0], consts), const_int(rs[0].args[0], consts)
+    if a != b:
+        raise Untranslatable("GlobalEncoding widths differ")
+    return a
+
+
+def coq_layout(fields):
+    return "[" + "; ".join(f'({k}, {w}%nat, "{n}"%string)' for k, w, n in fields) + "]"
+
+
+def gen_header_layout(repo):
+    o = Out("laspy/header.py LasHeader.write_to / read_from, laspy/vlrs/vlrlist.py")
+    o.text = o.text.replace("From LasV Require Import Lib.Base.", "From LasV Require Import Lib.Base Lib.Layout.")
+    mod = parse(repo, "laspy/header.py")
+    consts = int_consts(mod)
+    cls = find_class(mod, "LasHeader")
+    gecls = find_class(mod, "GlobalEncoding")
+    for minor in (1, 2, 3, 4):
+        def w(minor=minor):
+            gw = ge_io_width(gecls, consts)
+            return f"Definition hdr_write_layout_{minor} : layout := " + coq_layout(header_write_layout(find_func(cls, "write_to"), consts, minor, gw)) + ".\n"
+        o.add(f"hdr_write_layout_{minor}", w)
+
+        def r(minor=minor):
+            gw = ge_io_width(gecls, consts)
+            return f"Definition hdr_read_layout_{minor} : layout := " + coq_layout(header_read_layout(find_func(cls, "read_from"), consts, minor, gw)) + ".\n"
+        o.add(f"hdr_read_layout_{minor}", r)
+
+    def sizes():
+        for n in mod.body:
+            if isinstance(n, ast.Assign) and ast.unparse(n.targets[0]) == "LAS_HEADERS_SIZE":
+                d = ast.literal_eval(n.value)
+                rows = "; ".join(f"({k.split('.')[0]}, {k.split('.')[1]}, {v})" for k, v in d.items())
+                return f"Definition las_headers_size : list (Z * Z * Z) := [{rows}].\n"
+        raise Untranslatable("LAS_HEADERS_SIZE")
+    o.add("las_headers_size", sizes)
+
+    # VLR record headers
+    vmod = parse(repo, "laspy/vlrs/vlrlist.py")
+    vconsts = int_consts(vmod)
+    vcls = find_class(vmod, "VLRList")
+
+    def vlr_w(ext):
+        def t():
+            fn = find_func(vcls, "write_to")
+            loop = [s for s in fn.body if isinstance(s, ast.For)]
+            if len(loop) != 1:
+                raise Untranslatable("VLRList.write_to loop")
+            fields = []
+            for s in loop[0].body:
+                calls = []
+                if isinstance(s, ast.Expr) and isinstance(s.value, ast.Call):
+                    calls = [(s.value, None)]
+                elif isinstance(s, ast.If) and ast.unparse(s.test) == "as_extended":
+                    br = s.body if ext else s.orelse
+                    calls = [(x.value, None) for x in br if isinstance(x, ast.Expr) and isinstance(x.value, ast.Call)]
+                    for x in br:
+                        if not (isinstance(x, ast.Expr) and isinstance(x.value, ast.Call)) and has_stream_io(x, "write"):
+                            raise Untranslatable("VLR write under nested condition")
+                elif has_stream_io(s, "write"):
+                    raise Untranslatable(f"VLR write in {ast.unparse(s)[:60]}")
+                for c, _ in calls:
+                    f = ast.unparse(c.func)
+                    if f == "stream.write":
+                        a = c.args[0]
+                        if isinstance(a, ast.Constant) and isinstance(a.value, bytes):
+                            if any(a.value):
+                                raise Untranslatable("non-zero reserved")
+                            fields.append(("KConst", len(a.value), "reserved"))
+                        elif isinstance(a, ast.Call) and isinstance(a.func, ast.Attribute) and a.func.attr == "to_bytes":
+                            if not byteorder_ok(a, 1, {}) or not unsigned_kw(a):
+                                raise Untranslatable("VLR to_bytes order")
+                            nm = ast.unparse(a.func.value).replace("vlr.", "").replace("len(record_data)", "record_length")
+                            fields.append(("KUInt", const_int(a.args[0], vconsts), nm))
+                        elif ast.unparse(a) == "record_data":
+                            fields.append(("KVar", 0, "record_data"))
+                        else:
+                            raise Untranslatable(f"VLR stream.write({ast.unparse(a)})")
+                    elif f in ("write_string", "write_as_c_string"):
+                        fields.append(("KStr" if f == "write_string" else "KCStr", const_int(c.args[2], vconsts),
+                                       ast.unparse(c.args[1]).replace("vlr.", "")))
+            return f"Definition vlr_write_layout_{'ext' if ext else 'std'} : layout := " + coq_layout(fields) + ".\n"
+        return t
+    o.add("vlr_write_layout_std", vlr_w(False))
+    o.add("vlr_write_layout_ext", vlr_w(True))
+
+    def vlr_r(ext):
+        def t():
+            fn = find_func(vcls, "read_from")
+            loop = [s for s in fn.body if isinstance(s, ast.For)]
+            if len(loop) != 1:
+                raise Untranslatable("VLRList.read_from loop")
+            fields = []
+
+            def one(s):
+                rd = [n for n in ast.walk(s) if isinstance(n, ast.Call) and ast.unparse(n.func) in ("data_stream.read", "read_string")]
+                if not rd:
+                    return
+                if len(rd) != 1:
+                    raise Untranslatable("several reads")
+                c = rd[0]
+                tgt = ast.unparse(s.targets[0]) if isinstance(s, ast.Assign) else "reserved"
+                tgt = {"record_data_len": "record_length", "record_data_bytes": "record_data"}.get(tgt, tgt)
+                if ast.unparse(c.func) == "read_string":
+                    fields.append(("KStr", const_int(c.args[1], vconsts), tgt))
+                    return
+                src = ast.unparse(s)
+                if "int.from_bytes" in src:
+                    fb = [n for n in ast.walk(s) if isinstance(n, ast.Call) and ast.unparse(n.func) == "int.from_bytes"][0]
+                    if not byteorder_ok(fb, 1, {}) or not unsigned_kw(fb):
+                        raise Untranslatable("VLR from_bytes order")
+                    fields.append(("KUInt", const_int(c.args[0], vconsts), tgt))
+                elif ".split(b'\\x00')[0]" in src or '.split(b"\\0")[0]' in src:
+                    fields.append(("KStr", const_int(c.args[0], vconsts), tgt))
+                elif tgt == "record_data":
+                    fields.append(("KVar", 0, tgt))
+                elif tgt == "reserved":
+                    fields.append(("KConst", const_int(c.args[0], vconsts), tgt))
+                else:
+                    raise Untranslatable(f"VLR read {src[:60]}")
+            for s in loop[0].body:
+                if isinstance(s, ast.If) and ast.unparse(s.test) == "extended":
+                    for x in (s.body if ext else s.orelse):
+                        one(x)
+                else:
+                    one(s)
+            return f"Definition vlr_read_layout_{'ext' if ext else 'std'} : layout := " + coq_layout(fields) + ".\n"
+        return t
+    o.add("vlr_read_layout_std", vlr_r(False))
+    o.add("vlr_read_layout_ext", vlr_r(True))
+    return o
+
+
+
+# ----------------------------------------------------------------------------------
+# target: table dump of laspy.point.dims / extradims / PointFormat -> GenDims.v
+# ----------------------------------------------------------------------------------
+def gen_dims(repo):
+    o = Out("laspy/point/dims.py, laspy/extradims.py, laspy/point/format.py (values of the running module)")
+    sys.path.insert(0, repo)
+    for m in [k for k in sys.modules if k == "laspy" or k.startswith("laspy.")]:
+        del sys.modules[m]
+    import importlib
+    dims = importlib.import_module("laspy.point.dims")
+    extradims = importlib.import_module("laspy.extradims")
+    fmtmod = importlib.import_module("laspy.point.format")
+    import numpy as np
+
+    def qs(x):
+        return '"' + x + '"%string'
+
+    def compat():
+        rows = []
+        for ver, fmts in dims.VERSION_TO_POINT_FMT.items():
+            a, b = ver.split(".")
+            rows.append(f"({a}, {b}, [{'; '.join(str(int(f)) for f in fmts)}])")
+        return "Definition version_to_point_fmt : list (Z * Z * list Z) := [" + "; ".join(rows) + "].\n"
+    o.add("version_to_point_fmt", compat)
+
+    def pref():
+        rows = []
+        for f in sorted(dims.POINT_FORMAT_DIMENSIONS.keys()):
+            a, b = dims.preferred_file_version_for_point_format(f).split(".")
+            rows.append(f"({f}, ({a}, {b}))")
+        return "Definition preferred_version : list (Z * (Z * Z)) := [" + "; ".join(rows) + "].\n"
+    o.add("preferred_version", pref)
+
+    def minfmt():
+        rows = []
+        for ver in dims.VERSION_TO_POINT_FMT:
+            a, b = ver.split(".")
+            rows.append(f"({a}, {b}, {dims.min_point_format_for_version(ver)})")
+        return "Definition min_point_format : list (Z * Z * Z) := [" + "; ".join(rows) + "].\n"
+    o.add("min_point_format", minfmt)
+
+    def fields():
+        # per format: (name, byte offset, width, kind letter i/u/f) from PointFormat(i).dtype()
+        out = []
+        for f in sorted(dims.POINT_FORMAT_DIMENSIONS.keys()):
+            dt = fmtmod.PointFormat(f).dtype()
+            if dt.isalignedstruct:
+                raise Untranslatable("aligned struct")
+            rows = []
+            for name in dt.names:
+                sub, off = dt.fields[name][0], dt.fields[name][1]
+                rows.append(f"({qs(name)}, {off}, {sub.itemsize}, {qs(sub.kind)})")
+            out.append(f"({f}, {dt.itemsize}, [{'; '.join(rows)}])")
+        return "Definition point_formats : list (Z * Z * list (string * Z * Z * string)) := [\n  " + ";\n  ".join(out) + "].\n"
+    o.add("point_formats", fields)
+
+    def subfields():
+        out = []
+        for f in sorted(dims.POINT_FORMAT_DIMENSIONS.keys()):
+            rows = []
+            for composed, subs in dims.COMPOSED_FIELDS[f].items():
+                for sf in subs:
+                    rows.append(f"({qs(sf.name)}, {qs(composed)}, {int(sf.mask)})")
+            out.append(f"({f}, [{'; '.join(rows)}])")
+        return "Definition sub_fields : list (Z * list (string * string * Z)) := [\n  " + ";\n  ".join(out) + "].\n"
+    o.add("sub_fields", subfields)
+
+    def ebtypes():
+        rows = []
+        for i, dt in enumerate(extradims._allowed_extra_dims_types):
+            n = dt.shape[0] if dt.ndim == 1 else 1
+            rows.append(f"({i + 1}, {qs(dt.base.kind)}, {dt.base.itemsize}, {n})")
+        return "Definition extra_dim_types : list (Z * string * Z * Z) := [" + "; ".join(rows) + "].\n"
+    o.add("extra_dim_types", ebtypes)
+    return o
+
+
 TARGETS = {
     "GenGlobalEncoding.v": gen_global_encoding,
     "GenFormatBits.v": gen_format_bits,
+    "GenHeaderLayout.v": gen_header_layout,
+    "GenDims.v": gen_dims,
 }
 
 
